@@ -1413,7 +1413,7 @@ func (fr *frame) assertsAtCall(st *State, x *ssa.Call) {
 	name, qual := "", ""
 	if x.Call.IsInvoke() {
 		name = x.Call.Method.Name()
-		qual = types.TypeString(x.Call.Value.Type(), nil) + "." + name
+		qual = types.TypeString(types.Unalias(x.Call.Value.Type()), nil) + "." + name
 	} else if f := x.Call.StaticCallee(); f != nil {
 		name = f.Name()
 		qual = f.String()
